@@ -68,8 +68,9 @@ def _encode_channel(chunk_channel, block_size):
             y*block_size[1] : (y+1)*block_size[1],
             x*block_size[0] : (x+1)*block_size[0]
         ]
-        if block.shape != block_size:
-            block = pad_block(block, block_size)
+        # block is indexed (Z, Y, X), block_size is given as (X, Y, Z)
+        if block.shape != block_size[::-1]:
+            block = pad_block(block, block_size[::-1])
 
         # TODO optimization: to improve additional compression (gzip), sort the
         # list of unique symbols by decreasing frequency using
